@@ -57,9 +57,14 @@ func (s *sys) baseStep(o opDesc) bfs.StepResult {
 	if !s.haveSnap {
 		var k, msg string
 
-		if before, k, msg = s.snapshot(); k != "" {
+		if before, k, msg = s.snapshot(true); k != "" {
 			return harness("snapshot of the base: " + k + " " + msg)
 		}
+	}
+
+	// what the base answers its own readers belongs to the snapshot around a base-side letter, in every tier
+	if k, msg := s.askNow(&before); k != "" {
+		return harness("answers of the base: " + k + " " + msg)
 	}
 
 	var idm, twIdm avfs.IdentityMgr
@@ -105,7 +110,7 @@ func (s *sys) baseStep(o opDesc) bfs.StepResult {
 	// the questions leave the base alone (each of them is also an ordinary
 	// step in this state, which names the call; here the letter is named)
 	if len(asked) > 0 {
-		snapA, k, msg := s.snapshot()
+		snapA, k, msg := s.snapshot(true)
 		if k != "" {
 			return harness("snapshot of the base after the questions: " + k + " " + msg)
 		}
@@ -129,7 +134,7 @@ func (s *sys) baseStep(o opDesc) bfs.StepResult {
 		return harness(fmt.Sprintf("base answers %s (%s), twin answers %s (%s)", mr.String(), mr.Msg, mt.String(), mt.Msg))
 	}
 
-	mid, k, msg := s.snapshot()
+	mid, k, msg := s.snapshot(false)
 	if k != "" {
 		return harness("snapshot of the base after the change: " + k + " " + msg)
 	}
@@ -139,7 +144,7 @@ func (s *sys) baseStep(o opDesc) bfs.StepResult {
 		return harness(err.Error())
 	}
 
-	after, k, msg := s.snapshot()
+	after, k, msg := s.snapshot(true)
 	if k != "" {
 		return harness("snapshot of the base after the change: " + k + " " + msg)
 	}
@@ -251,7 +256,7 @@ func (s *sys) baseStep(o opDesc) bfs.StepResult {
 	final := after
 
 	if len(asked) > 0 {
-		if final, k, msg = s.snapshot(); k != "" {
+		if final, k, msg = s.snapshot(true); k != "" {
 			return harness("snapshot of the base after the questions: " + k + " " + msg)
 		}
 
